@@ -372,6 +372,28 @@ def r5(R, repo):
              key_of(rw, 'rewound scope = same variables, rngs, name, mutable, parent, path'), 'Scope.rewound must rebuild the scope over the same variables, rngs, name, mutability, parent and path (only reservations start afresh)')
 
 
+@rule('C02.R8', 'K7', 2, 'a module instance shared between parents is adopted once per variable tree: the adoption cache is keyed by the root scope')
+def r8(R, repo):
+  mo = repo.mod(MO)
+  f = mo.func('Module._register_submodules')
+  keys = []
+  for n in ast.walk(f.node):
+    if isinstance(n, ast.Subscript) and astu.src(n.value) == '_caches':
+      keys.append((n, n.slice))
+    if isinstance(n, ast.Call) and isinstance(n.func, ast.Attribute) and astu.src(n.func.value) == '_caches' and n.func.attr in ('get', 'setdefault', 'pop') and n.args:
+      keys.append((n, n.args[0]))
+  R.require(len(keys) >= 1, '_register_submodules: no access to the adoption cache `_caches`')
+  for node, k in keys:
+    key = key_of(f, 'adoption cache keyed by the root scope') + ' :: ' + astu.short(node, 40)
+    alts = {astu.src(e) for e in evid.expand(f, k) if isinstance(e, ast.AST)}
+    if any(a.endswith('.scope.root') or a.endswith('.root') for a in alts):
+      R.ok(key, (f, node))
+    elif alts & {'self.scope', 'self', 'self.parent', 'self.parent.scope'} or any(a.endswith('.scope') for a in alts):
+      R.fail(key, (f, node), '`%s` keys the adoption cache by `%s` instead of the root scope: a module instance used by two parents of the same tree is cloned once per parent, so the two uses get independent parameters and weight sharing is silently lost' % (astu.short(node), sorted(alts)[0]))
+    else:
+      R.unsure(key, (f, node), 'cache key `%s` not recognised' % astu.short(k))
+
+
 @rule('C02.R6', 'K6', 3, 'shape-only init runs the same init and returns its variables')
 def r6(R, repo):
   mo = repo.mod(MO)
